@@ -130,7 +130,8 @@ fn teardown_verdict(l: &Ledger, label: &str) -> Option<Violation> {
 #[derive(Clone, Debug)]
 enum Op {
     Mkdir(usize),
-    Open(usize, bool),
+    /// name*8+slot, variant (flag kind | mode kind << 4, see `open_variant`)
+    Open(usize, u32),
     Writev(usize, Vec<u8>, usize),
     Readv(usize, usize),
     Statx(usize),
@@ -139,6 +140,34 @@ enum Op {
     Close(usize),
     Timeout,
     Socket,
+}
+
+/// flag kind (low 4 bits) and mode kind of an openat entry: the wrapper's flags, the same flags for
+/// the direct call, the mode
+fn open_variant(v: u32) -> (OpenFlags, i32, u32) {
+    let (f, l) = match v & 15 {
+        0 => (OpenFlags::O_RDWR, libc::O_RDWR),
+        4 => (OpenFlags::O_RDWR | OpenFlags::O_CREAT | OpenFlags::O_EXCL, libc::O_RDWR | libc::O_CREAT | libc::O_EXCL),
+        5 => (OpenFlags::O_WRONLY | OpenFlags::O_CREAT | OpenFlags::O_APPEND, libc::O_WRONLY | libc::O_CREAT | libc::O_APPEND),
+        6 => (OpenFlags::O_RDWR | OpenFlags::O_TMPFILE, libc::O_RDWR | libc::O_TMPFILE),
+        7 => (OpenFlags::O_WRONLY | OpenFlags::O_TMPFILE, libc::O_WRONLY | libc::O_TMPFILE),
+        8 => (OpenFlags::O_RDONLY | OpenFlags::O_DIRECTORY, libc::O_RDONLY | libc::O_DIRECTORY),
+        9 => (OpenFlags::O_RDWR | OpenFlags::O_CREAT | OpenFlags::O_TRUNC, libc::O_RDWR | libc::O_CREAT | libc::O_TRUNC),
+        _ => (OpenFlags::O_RDWR | OpenFlags::O_CREAT, libc::O_RDWR | libc::O_CREAT),
+    };
+    let mode = [0o644, 0o600, 0o640, 0o755, 0o444, 0o666, 0o200][(v >> 4) as usize % 7];
+    (f, l, mode)
+}
+
+fn open_truncates(v: u32) -> bool {
+    v & 15 == 9
+}
+
+/// (st_mode, F_GETFL) of an open descriptor
+fn fd_facts(fd: i32) -> (u32, i32) {
+    let mut st: libc::stat = unsafe { std::mem::zeroed() };
+    let r = unsafe { libc::fstat(fd, &mut st) };
+    (if r == 0 { st.st_mode } else { u32::MAX }, unsafe { libc::fcntl(fd, libc::F_GETFL) })
 }
 
 fn dir_digest(dir: &str) -> BTreeMap<Vec<u8>, (bool, Vec<u8>)> {
@@ -173,6 +202,8 @@ fn run_ops(dec: Dec, opts: &RunOpts, slot: u64, nbatches: usize) -> RunOut {
     let mut log: Vec<String> = Vec::new();
     let mut nops = 0u64;
     let mut nerr_ops = 0u64;
+    let mut nopen_cmp = 0u64;
+    let mut ntmpfile = 0u64;
     sched::with_installed(&mut sim, || {
         let r = std::panic::catch_unwind(std::panic::AssertUnwindSafe(|| -> Option<Violation> {
             let s = sched::sim().unwrap();
@@ -208,7 +239,7 @@ fn run_ops(dec: Dec, opts: &RunOpts, slot: u64, nbatches: usize) -> RunOut {
                     let sl = s.dec.choose(K::Arg, 6) as usize;
                     let op = match s.dec.choose(K::Op, 12) {
                         0 => Op::Mkdir(n),
-                        1 | 2 => Op::Open(n, s.dec.chance(K::Arg, 3, 4)),
+                        1 | 2 => Op::Open(n, s.dec.choose(K::Arg, 12) | s.dec.choose(K::Arg, 7) << 4),
                         3 | 4 => {
                             let len = *s.dec.pick(K::Arg, &[1usize, 7, 100, 4096, 9000]);
                             let sd = s.dec.choose(K::Arg, 250) as u8;
@@ -234,7 +265,7 @@ fn run_ops(dec: Dec, opts: &RunOpts, slot: u64, nbatches: usize) -> RunOut {
                     }
                     // two descriptors may designate the same file: at most one operation per batch
                     // that reads or writes file content or size keeps the entries independent
-                    if matches!(op, Op::Writev(..) | Op::Readv(..) | Op::Statx(_)) {
+                    if matches!(op, Op::Writev(..) | Op::Readv(..) | Op::Statx(_)) || matches!(op, Op::Open(_, v) if open_truncates(v)) {
                         if content_op_used {
                             continue;
                         }
@@ -291,7 +322,7 @@ fn run_ops(dec: Dec, opts: &RunOpts, slot: u64, nbatches: usize) -> RunOut {
                     let e = unsafe {
                         match o {
                             Op::Mkdir(n) => IoUringSubmissionQueueEntry::new_mkdirat(Some(dfa), &names[*n], Mode::from(0o755), ud, fl),
-                            Op::Open(x, creat) => IoUringSubmissionQueueEntry::new_openat(Some(dfa), &names[*x / 8], if *creat { OpenFlags::O_RDWR | OpenFlags::O_CREAT } else { OpenFlags::O_RDWR }, Mode::from(0o644), ud, fl),
+                            Op::Open(x, v) => IoUringSubmissionQueueEntry::new_openat(Some(dfa), &names[*x / 8], open_variant(*v).0, Mode::from(open_variant(*v).2), ud, fl),
                             Op::Writev(sl, _, _) => {
                                 expected_bad_fd[i] = fds_a[*sl].is_none();
                                 IoUringSubmissionQueueEntry::new_writev(fds_a[*sl].unwrap_or(bad), iovs_w[i].as_ptr() as usize, iovs_w[i].len() as u32, ud, fl)
@@ -348,8 +379,8 @@ fn run_ops(dec: Dec, opts: &RunOpts, slot: u64, nbatches: usize) -> RunOut {
                     let cn = |n: usize| std::ffi::CString::new(format!("n{n}")).unwrap();
                     let twin: i32 = match o {
                         Op::Mkdir(n) => errno_of(unsafe { libc::mkdirat(dfb.value(), cn(*n).as_ptr(), 0o755) } as isize),
-                        Op::Open(x, creat) => {
-                            let r = unsafe { libc::openat(dfb.value(), cn(*x / 8).as_ptr(), if *creat { libc::O_RDWR | libc::O_CREAT } else { libc::O_RDWR }, 0o644) };
+                        Op::Open(x, v) => {
+                            let r = unsafe { libc::openat(dfb.value(), cn(*x / 8).as_ptr(), open_variant(*v).1, open_variant(*v).2) };
                             if r >= 0 {
                                 fds_b[*x % 8] = Some(Fd::try_new(r).unwrap());
                             }
@@ -428,6 +459,21 @@ fn run_ops(dec: Dec, opts: &RunOpts, slot: u64, nbatches: usize) -> RunOut {
                         let kind = name.split('(').next().unwrap_or("op").to_string();
                         return Some(Violation { sig: format!("ops|{kind}|result-differs"), detail: format!("{name}: completion res {res}, the direct system call gives {twin}").chars().take(300).collect() });
                     }
+                    if let Op::Open(x, v) = o {
+                        if res >= 0 && twin >= 0 {
+                            // what was opened, not only that something was: type, permission bits
+                            // (an O_TMPFILE inode has no name the directory digest could see) and
+                            // the status flags of the open file description
+                            let (sa, sb) = (fd_facts(res as i32), fd_facts(twin));
+                            nopen_cmp += 1;
+                            if open_variant(*v).1 & libc::O_TMPFILE == libc::O_TMPFILE {
+                                ntmpfile += 1;
+                            }
+                            if sa != sb {
+                                return Some(Violation { sig: "ops|Open|opened-object-differs".into(), detail: format!("Open(name n{}, flags {:#o}, mode {:#o}): (st_mode, status flags) of the ring's descriptor ({:#o}, {:#o}), of the direct call's ({:#o}, {:#o})", x / 8, open_variant(*v).1, open_variant(*v).2, sa.0, sa.1, sb.0, sb.1) });
+                            }
+                        }
+                    }
                 }
                 let (a, b) = (dir_digest(&da), dir_digest(&db));
                 if a != b {
@@ -466,6 +512,8 @@ fn run_ops(dec: Dec, opts: &RunOpts, slot: u64, nbatches: usize) -> RunOut {
     out.evals = 0;
     out.counters.insert("ops.compared_with_twin", nops);
     out.counters.insert("ops.negative_results", nerr_ops);
+    out.counters.insert("ops.opened_objects_compared", nopen_cmp);
+    out.counters.insert("probe.tmpfile_opened_both_sides", ntmpfile);
     out.counters.insert("io_uring_enter_calls", led.n_enter.get());
     out.counters.insert("probe.single_mmap_kernel", u64::from(led.maps.borrow().len() == 2));
     if opts.record {
